@@ -34,6 +34,9 @@ func TestVerif(t *testing.T) {
 		verifSched(t, r, out, "sch7")
 		verifAdv(t, r, out, "adv7")
 		verifConcurrentFailures(t, out)
+		// requests still queued when the interface is re-initialised must die with the old
+		// incarnation ("unless the interface is stopped or re-initialised before it is due")
+		verifC10GroupQ(t, r, out)
 	case "C08":
 		verifC08(t, r, out)
 		// the advertiser's terminate() is the server's terminator: whether a terminating signal is
